@@ -770,7 +770,8 @@ def gen_c05(tier, seed):
     # horizontal-only with integer crop top > 0 into an over-long buffer (spare rows must stay untouched)
     add("h_u8x2_none_long", "quick", "U8x2", "None", 4, 5, 2, 3, (0, 1, 4, 3), ("Convolution", "Bilinear"), ("long", 4))
     # vertical-only into a cropped view
-    add("v_u8_none_cropped", "quick", "U8", "None", 2, 4, 2, 2, None, ("Convolution", "Bilinear"), ("cropped", 3, 3, 1, 1), mem=16)
+    # (14 min: thorough only; the vertical pass into a cropped view is also part of the two-pass instance above)
+    add("v_u8_none_cropped", "thorough", "U8", "None", 2, 4, 2, 2, None, ("Convolution", "Bilinear"), ("cropped", 3, 3, 1, 1), mem=16, t=3000)
     add("v_u8_sse4_exact", "thorough", "U8", "Sse4_1", 3, 4, 3, 2, None, ("Convolution", "Bilinear"), ("exact",), mem=16, t=3000)
     # horizontal-only SIMD into a cropped view that is not flush with the parent's bottom, 5 rows
     # (the source has rows below the crop box and the parent has rows below the view: a leftover-row loop that
@@ -805,8 +806,10 @@ def gen_c06(tier, seed):
                         quick = op in ("MulInplace", "Div") or pos == 0
                     else:
                         quick = op in ("MulInplace", "Div") and pos in (0, K - 1)
-                        if wide and is_div and pos != 0:
-                            quick = False   # 16-bit SIMD divide: one lane position in the quick tier (known findings make each failing harness cost a replay)
+                        if wide and is_div and (pos != 0 or P == "U16x4"):
+                            # 16-bit SIMD divide: U16x2 at one lane position in the quick tier (U16x4 needs 5-12 min
+                            # per harness; known findings make each failing harness cost a replay)
+                            quick = False
                     if wide and is_div and cpu == "None":
                         # alpha axis sliced: [0,255] whole (contains alpha = 1), elsewhere 16-wide slices
                         # (a 256-wide slice of large alphas did not finish in 15 min)
